@@ -35,6 +35,11 @@ class Deadlock(SchedulerAbort):
     pass
 
 
+class HorizonExceeded(SchedulerAbort):
+    """The execution did not finish within the harness's horizon of scheduling points (livelock / endless loop)."""
+    pass
+
+
 NEW, READY, BLOCKED, DONE = "new", "ready", "blocked", "done"
 
 # ---- bytecode-granularity points (PEP 669 monitoring; sys.settrace's opcode events are not delivered on 3.12.1) ----
@@ -175,7 +180,7 @@ class Scheduler(object):
             return                      # a thread the scheduler does not own (never happens in the harnesses)
         self.n_raw_points += 1
         if self.n_raw_points > self.max_points:
-            self._abort(SchedulerAbort("horizon exceeded: %d points" % self.n_raw_points))
+            self._abort(HorizonExceeded("horizon exceeded: %d points" % self.n_raw_points))
         enabled = self._enabled(me)
         if len(enabled) <= 1:
             return
